@@ -732,8 +732,8 @@ def _str_table_driven(ctx, strm, bits) -> int:
             for st in cls.node.body:
                 if isinstance(st, ast.Assign) and len(st.targets) == 1 and norm(st.targets[0]) == tname:
                     tval = st.value
-            if tval is None and sm.global_assign_count(tname) == 1:
-                tval = sm.global_assign(tname)
+            if tval is None:
+                tval = sm.module_const(tname)
         if not (isinstance(tval, (ast.Tuple, ast.List)) and all(isinstance(e, ast.Constant) and isinstance(e.value, str) for e in tval.elts)):
             continue
         idx, nm = norm(lp.target.elts[0]), norm(lp.target.elts[1])
